@@ -24,6 +24,7 @@ open Pandora.C04
 #print axioms run_ok_of_or
 #print axioms repeated_refinement_counterexample
 #print axioms repeated_interpolation_counterexample
+#print axioms border_regularized_counterexample
 -- the source as regenerated on this run
 #print axioms sites_documented
 #print axioms refinement_returns_documented
